@@ -64,7 +64,7 @@ def do_job(job):
   return out
 
 
-def run_jobs(jobs, workers, budget_s, on_result=None):
+def run_jobs(jobs, workers, budget_s, on_result=None, stop=None):
   """Runs jobs on a fork pool; stops handing out work after budget_s.
 
   Returns (results sorted by (engine, profile, run_index), skipped count).
@@ -74,7 +74,7 @@ def run_jobs(jobs, workers, budget_s, on_result=None):
   t0 = time.time()
   if workers <= 1:
     for job in jobs:
-      if time.time() - t0 > budget_s:
+      if time.time() - t0 > budget_s or (stop and stop()):
         skipped += 1
         continue
       res = do_job(job)
@@ -94,7 +94,7 @@ def run_jobs(jobs, workers, budget_s, on_result=None):
       def top_up():
         nonlocal exhausted, skipped
         while not exhausted and len(pending) < 2 * workers:
-          if time.time() - t0 > budget_s:
+          if time.time() - t0 > budget_s or (stop and stop()):
             rest = sum(1 for _ in it)
             skipped += rest
             exhausted = True
